@@ -202,7 +202,14 @@ def _store(text):
 
 
 def _clone(st):
-    return ast.parse(ast.unparse(st)).body[0]
+    new = ast.parse(ast.unparse(st)).body[0]
+    off = getattr(st, "lineno", 1) - 1
+    for n in ast.walk(new):
+        if hasattr(n, "lineno"):
+            n.lineno += off
+            if getattr(n, "end_lineno", None) is not None:
+                n.end_lineno += off
+    return new
 
 
 def _expression_helper(fi):
@@ -326,7 +333,8 @@ def inline_new_helpers(prog):
                 k = inlinable(fi)
                 if k:
                     cands[fi.qname] = (fi, k)
-        if not cands:
+        has_gen = any(fi.mod is mi and fi.qname not in known and fi.outer is None and _has(fi.node, (ast.Yield,)) for fi in prog.funcs.values())
+        if not cands and not has_gen:
             continue
 
         def target(call, caller):
@@ -387,6 +395,69 @@ def inline_new_helpers(prog):
                 ast.fix_missing_locations(x)
             return pre + [st]
 
+        def gen_target(call, caller):
+            f = call.func
+            fi = None
+            if isinstance(f, ast.Name):
+                fi = caller.nested.get(f.id) or mi.funcs.get(f.id)
+            elif isinstance(f, ast.Attribute) and isinstance(f.value, ast.Name) and caller.cls is not None and f.value.id in ("self", "cls", caller.cls.name):
+                fi = caller.cls.methods.get(f.attr)
+            if fi is None or fi.qname in known or fi is caller or fi.nested:
+                return None
+            ys = [n for n in ast.walk(fi.node) if isinstance(n, (ast.Yield, ast.YieldFrom))]
+            if len(ys) != 1 or isinstance(ys[0], ast.YieldFrom) or ys[0].value is None:
+                return None
+            if _returns(fi.node) or any(d for d in fi.decorators if d not in ("staticmethod",)):
+                return None
+            return fi
+
+        def fuse_generator(gfi, loop, caller):
+            """the generator's body with `yield v` replaced by `<target> = v; <loop body>`: valid when nothing runs after the
+            yield within an iteration (tail position of its loops / ifs) and nothing runs after the generator's loop"""
+            cn = {n.id for n in ast.walk(caller.node) if isinstance(n, ast.Name)} | {a.arg for a in caller.node.args.args}
+            ex = _expand(gfi, loop.iter, "straight", cn)
+            if ex is None:
+                return None
+            body, _ret = ex
+
+            def tail_replace(stmts, in_loop):
+                """-> (new statements, found) ; the yield must be the last statement of its block chain"""
+                for i, st_ in enumerate(stmts):
+                    has = any(isinstance(n, ast.Yield) for n in ast.walk(st_))
+                    if not has:
+                        continue
+                    if i != len(stmts) - 1:
+                        return None  # something runs after the yield
+                    if isinstance(st_, ast.Expr) and isinstance(st_.value, ast.Yield):
+                        asg = ast.Assign(targets=[_store(ast.unparse(loop.target))], value=st_.value.value, lineno=loop.lineno, col_offset=0)
+                        return stmts[:i] + [asg] + [_clone(b) for b in loop.body]
+                    if isinstance(st_, ast.If):
+                        in_body = any(isinstance(n, ast.Yield) for b in st_.body for n in ast.walk(b))
+                        blk = st_.body if in_body else st_.orelse
+                        new = tail_replace(blk, in_loop)
+                        if new is None:
+                            return None
+                        if in_body:
+                            st_.body = new
+                        else:
+                            st_.orelse = new
+                        return stmts
+                    if isinstance(st_, (ast.For, ast.While)) and not in_loop and not st_.orelse:
+                        new = tail_replace(st_.body, True)
+                        if new is None:
+                            return None
+                        st_.body = new
+                        return stmts
+                    return None
+                return None
+
+            new = tail_replace(body, False)
+            if new is None:
+                return None
+            for x in new:
+                ast.fix_missing_locations(x)
+            return new
+
         def rewrite(stmts, caller, depth=0):
             out = []
             stmts = [y for x in stmts for y in (hoist(x, caller) if depth < 3 else [x])]
@@ -398,6 +469,15 @@ def inline_new_helpers(prog):
                 if isinstance(st, ast.Try):
                     for h in st.handlers:
                         h.body = rewrite(h.body, caller, depth)
+                # for x in gen(a): BODY  with gen an unknown generator that yields in tail position of its single loop
+                if isinstance(st, ast.For) and isinstance(st.iter, ast.Call) and not st.orelse and depth < 3:
+                    gfi = gen_target(st.iter, caller)
+                    if gfi is not None:
+                        fused = fuse_generator(gfi, st, caller)
+                        if fused is not None:
+                            out += rewrite(fused, caller, depth + 1)
+                            done.append((caller.qname, gfi.qname))
+                            continue
                 call, kind = None, None
                 # x = [h(e) for e in it if c] / return [...]  with h an unknown multi-statement helper  ->  an append loop
                 comp = st.value if isinstance(st, (ast.Assign, ast.Return)) and isinstance(st.value, ast.ListComp) else None
@@ -463,10 +543,14 @@ def inline_new_helpers(prog):
                     pairs = None
                     if isinstance(tgt, ast.Name) and isinstance(ret, ast.Name):
                         pairs = [(tgt, ret)]
-                    elif isinstance(tgt, ast.Tuple) and isinstance(ret, ast.Tuple) and len(tgt.elts) == len(ret.elts) and all(isinstance(t, ast.Name) for t in tgt.elts):
-                        tnames = {t.id for t in tgt.elts}
-                        if not any(isinstance(n, ast.Name) and n.id in tnames for r in ret.elts for n in ast.walk(r)):
-                            pairs = list(zip(tgt.elts, ret.elts))
+                    elif isinstance(tgt, ast.Tuple) and isinstance(ret, ast.Tuple):
+                        from .normalize import _flatten_pairs
+
+                        fp = _flatten_pairs(tgt, ret)
+                        if fp is not None:
+                            tnames = {t.id for t, _ in fp}
+                            if not any(isinstance(n, ast.Name) and n.id in tnames for _, r in fp for n in ast.walk(r)):
+                                pairs = fp
                     if pairs is None:
                         out += body
                         st.value = ret if ret is not None else ast.Constant(value=None)
@@ -475,9 +559,26 @@ def inline_new_helpers(prog):
                         # a, b = (x, y) -> a = x; b = y ; and a helper local that only feeds its target takes the target's name
                         copies = []
                         for t, r in pairs:
-                            if isinstance(r, ast.Name) and r.id.endswith(SUFFIX) and r.id[: -len(SUFFIX)] == t.id:
+                            helper_local = isinstance(r, ast.Name) and any(isinstance(n, ast.Name) and n.id == r.id and isinstance(n.ctx, ast.Store) for b_ in body for n in ast.walk(b_))
+                            if helper_local and ((r.id.endswith(SUFFIX) and r.id[: -len(SUFFIX)] == t.id) or r.id not in cn):
                                 uses = [n for b_ in body for n in ast.walk(b_) if isinstance(n, ast.Name) and n.id == t.id]
-                                if not uses:
+                                # the target may be read by the helper's arguments (args_str = f(args_str)): then it is read before it is re-bound
+                                reads_ok = all(isinstance(n.ctx, ast.Load) for n in uses)
+
+                                def _idx(name, store):
+                                    out_ = []
+                                    for i_, b_ in enumerate(body):
+                                        for n in ast.walk(b_):
+                                            if isinstance(n, ast.Name) and n.id == name and isinstance(n.ctx, ast.Store if store else ast.Load):
+                                                out_.append(i_)
+                                    return out_
+
+                                st_idx = _idx(r.id, True)
+                                ld_idx = _idx(t.id, False)
+                                # every read of the target happens no later than the statement that first binds the helper local
+                                # (in that statement the right-hand side is evaluated before the binding)
+                                early = bool(st_idx) and all(i_ <= min(st_idx) for i_ in ld_idx) and not any(isinstance(body[min(st_idx)], (ast.For, ast.While, ast.If, ast.Try, ast.With)) for _ in [0])
+                                if not uses or (reads_ok and early):
                                     for b_ in body:
                                         for n in ast.walk(b_):
                                             if isinstance(n, ast.Name) and n.id == r.id:
